@@ -5,8 +5,19 @@ import Dnp3.Proofs.OutstationC03Db
 # C03 — No event is lost, invented, or released before a confirmed response carried it
 
 Database-component theorems (`Dnp3.Model.Database`, proofs in `Dnp3.Proofs.Database`) for EVERY
-database state / operation / operation sequence, restated verbatim from `Dnp3.Props.DbComponent`
+database state / operation / operation sequence, ALL EIGHT point types of the library's database and
+every per-type event-buffer configuration, restated verbatim from `Dnp3.Props.DbComponent`
 (namespace `Dnp3.Props.Db`), which also carries the satisfiability `example`s:
+
+* the generated per-type tables (`Dnp3.Gen.DbT`, re-extracted from `outstation/database/**` on every run)
+  are well formed: every `impl Insertable` touches its own maximum, counter and `Event` variant
+  (`insertable_slots_own`, `counter_dispatch_own`), `is_any_full` / `max_events` mention every type once
+  (`is_any_full_each_type_once`), the header variants lead to the type they name (`header_dispatch_own`);
+* no type ever holds more events than ITS OWN maximum and the shared event list never more than the sum of
+  the maxima (`type_capacity`, `events_within_capacity`);
+* the event rule: an update in `Detect` mode creates an event iff the flags changed or the value is beyond
+  the point's dead-band of the value LAST REPORTED as an event, and that baseline moves only with an event
+  (`event_iff_beyond_deadband`, `update_creates_event_iff`, `last_reported_moves_only_with_event`);
 
 * events are kept oldest first with unique increasing ids (`ordered_*`), counters are exact
   (`total_exact_invariant`, `counters_exact` for every operation sequence, `counters_exact_preserved`
@@ -31,37 +42,66 @@ full statements.
 namespace Dnp3.Props.C03
 open Dnp3 Dnp3.DbM Dnp3.DbProofs Dnp3.Props.Db
 
+/-- every `impl Insertable for measurement::X` reads its own maximum and its own counter, changes its own
+    counter, and names its own `Event` variant -/
+theorem insertable_slots_own (t : PtType) : Gen.DbT.insertable t = ⟨t, t, t, t, t, t, t⟩ :=
+  @Dnp3.Props.Db.insertable_slots_own t
+
+/-- `TypeCounter::modify` and the `match` of `Counters::decrement` pick the counter of the record's type -/
+theorem counter_dispatch_own (t : PtType) : Gen.DbT.typeCounterModify t = t ∧ Gen.DbT.countersDecrement t = t :=
+  @Dnp3.Props.Db.counter_dispatch_own t
+
+/-- `EventBuffer::is_any_full` asks every type exactly once; `EventBufferConfig::max_events` (the capacity
+    of the shared event list) adds every type's maximum exactly once -/
+theorem is_any_full_each_type_once (t : PtType) :
+    Gen.DbT.isAnyFull.count t = 1 ∧ Gen.DbT.maxEventsSum.count t = 1 :=
+  @Dnp3.Props.Db.is_any_full_each_type_once t
+
+/-- the header variants of `select_by_header`, `StaticDatabase::select`, `write_range` and the accessors of
+    `impl Updatable` lead to the type they are named after; `select_class_zero` visits every type once, in
+    the order of `enum Event` -/
+theorem header_dispatch_own (t : PtType) :
+    Gen.DbT.eventHdrTy t = t ∧ Gen.DbT.staticHdrTy t = t ∧ Gen.DbT.writeRangeTy t = t ∧
+    Gen.DbT.updatable t = ⟨t, t, t, decide (t ≠ .octetString), t⟩ ∧ Gen.DbT.classZeroOrder = Gen.DbT.Ty.all :=
+  @Dnp3.Props.Db.header_dispatch_own t
+
 /-- events are kept oldest first with strictly increasing ids below `next`: an invariant of
     every operation sequence from a fresh database -/
-theorem ordered_invariant (evMax : Nat) (sel : Option Nat) (ops : List DbOp) :
-    Ordered (run (Db.new evMax sel) ops) :=
-  @Dnp3.Props.Db.ordered_invariant evMax sel ops
+theorem ordered_invariant (ev : TyVec Nat) (cz : TyVec Bool) (sel : Option Nat) (ops : List DbOpX) :
+    Ordered (runX (Db.newCfg ev cz sel) ops) :=
+  @Dnp3.Props.Db.ordered_invariant ev cz sel ops
 
 /-- … and it is preserved by every single operation from any state that has it -/
-theorem ordered_preserved (db : Db) (op : DbOp) (h : Ordered db) : Ordered (step db op) :=
+theorem ordered_preserved (db : Db) (op : DbOpX) (h : Ordered db) : Ordered (stepX db op) :=
   @Dnp3.Props.Db.ordered_preserved db op h
 
 /-- `total` (per class and per type) equals the number of records of that class / type: an
     invariant of every operation sequence, overflow included -/
-theorem total_exact_invariant (evMax : Nat) (sel : Option Nat) (ops : List DbOp) :
-    TotalExact (run (Db.new evMax sel) ops) :=
-  @Dnp3.Props.Db.total_exact_invariant evMax sel ops
+theorem total_exact_invariant (ev : TyVec Nat) (cz : TyVec Bool) (sel : Option Nat) (ops : List DbOpX) :
+    TotalExact (runX (Db.newCfg ev cz sel) ops) :=
+  @Dnp3.Props.Db.total_exact_invariant ev cz sel ops
 
 /-- `counters_exact`: `total` AND `written` counters equal the per-class / per-type counts of
     records / of `Written` records: an invariant of every operation sequence from a fresh database,
     the overflow of a `Written` record out of the buffer included (false before the repair of D3:
     `insert` left `written` too high) -/
-theorem counters_exact (evMax : Nat) (sel : Option Nat) (ops : List DbOp) :
+theorem counters_exact (ev : TyVec Nat) (cz : TyVec Bool) (sel : Option Nat) (ops : List DbOpX) :
+    CountersExact (runX (Db.newCfg ev cz sel) ops) :=
+  @Dnp3.Props.Db.counters_exact ev cz sel ops
+
+/-- … in particular of every sequence of the session model's operations, the configuration written as
+    the number `Db.new` takes -/
+theorem counters_exact_session (evMax : Nat) (sel : Option Nat) (ops : List DbOp) :
     CountersExact (run (Db.new evMax sel) ops) :=
-  @Dnp3.Props.Db.counters_exact evMax sel ops
+  @Dnp3.Props.Db.counters_exact_session evMax sel ops
 
 /-- … and it is preserved by every single operation from any state that has it -/
-theorem counters_exact_preserved (db : Db) (op : DbOp) (h : CountersExact db) : CountersExact (step db op) :=
+theorem counters_exact_preserved (db : Db) (op : DbOpX) (h : CountersExact db) : CountersExact (stepX db op) :=
   @Dnp3.Props.Db.counters_exact_preserved db op h
 
 /-- one step: every operation preserves `WrittenExact` (no side condition: an update that discards
     a `Written` record takes it out of `written` too) -/
-theorem written_exact_preserved (db : Db) (op : DbOp) (h : WrittenExact db) : WrittenExact (step db op) :=
+theorem written_exact_preserved (db : Db) (op : DbOpX) (h : WrittenExact db) : WrittenExact (stepX db op) :=
   @Dnp3.Props.Db.written_exact_preserved db op h
 
 /-- the former D3 witness history now leaves exact counters: the discarded `Written` class-1 record
@@ -71,7 +111,7 @@ theorem counters_exact_former_witness :
     CountersExact (run (Db.new 1 none) d3Witness) ∧
     (run (Db.new 1 none) d3Witness).unwrittenClasses = some (false, true, false) ∧
     (run (Db.new 1 none) d3Witness).written.c1 = 0 ∧ (run (Db.new 1 none) d3Witness).total.c1 = 0 :=
-  @Dnp3.Props.Db.counters_exact_former_witness
+  @Dnp3.Props.Db.counters_exact_former_witness 
 
 /-- the checked decrements of `insert` (`Count::decrement`, `-= 1`) never underflow: with exact
     counters the record an overflow of type `t` discards is counted in `total` (type, then class) and,
@@ -156,7 +196,48 @@ theorem overflow_reported_discards_oldest (db : Db) (idx cls : Nat) (t : PtType)
       ∀ r ∈ db.events, r.ty = t → r ≠ d → d.id < r.id :=
   @Dnp3.Props.Db.overflow_reported_discards_oldest db idx cls t m dv c dId ho h
 
+/-- no type ever holds more events than its configured maximum, and the shared event list never more than
+    the sum of the maxima — the capacity the library gives its `VecList` (so that `VecList::add` cannot
+    fail, which `EventBuffer::insert` does not check) -/
+theorem type_capacity (ev : TyVec Nat) (cz : TyVec Bool) (sel : Option Nat) (ops : List DbOpX) (t : PtType) :
+    (runX (Db.newCfg ev cz sel) ops).events.countP (fun r => r.ty == t) ≤ ev.get t :=
+  @Dnp3.Props.Db.type_capacity ev cz sel ops t
 
+theorem events_within_capacity (ev : TyVec Nat) (cz : TyVec Bool) (sel : Option Nat) (ops : List DbOpX) :
+    (runX (Db.newCfg ev cz sel) ops).events.length ≤ (Gen.DbT.maxEventsSum.map fun t => ev.get t).sum :=
+  @Dnp3.Props.Db.events_within_capacity ev cz sel ops
+
+/-- `event_iff_beyond_deadband`: an update of an existing point in `EventMode::Detect` wants an event iff the
+    flags as reported changed or — for the types whose detector has a dead-band — the new value differs from
+    the value LAST REPORTED as an event by more than the point's dead-band (binary types: the reported flags
+    carry the state; octet strings: the octets differ); `Force` always does, `Suppress` never -/
+theorem event_iff_beyond_deadband (t : PtType) (p : Point) (m : Meas) :
+    (wantsEvent t p m .detect = true ↔
+      match Gen.DbT.detector t with
+      | .flags => p.lastEvent.wire t ≠ m.wire t
+      | .deadband => p.lastEvent.wire t ≠ m.wire t ∨ (m.value - p.lastEvent.value).natAbs > p.deadband
+      | .value => p.lastEvent.octets ≠ m.octets) ∧
+    wantsEvent t p m .force = true ∧ wantsEvent t p m .suppress = false :=
+  @Dnp3.Props.Db.event_iff_beyond_deadband t p m
+
+/-- … the update reports `created` / `overflow` exactly when an event is wanted, the point has an event
+    class and the type's buffer is not switched off … -/
+theorem update_creates_event_iff (db : Db) (t : PtType) (idx : Nat) (m : Meas) (o : UpdOpts) (p : Point)
+    (hp : pmLookup (db.map t) idx = some p) :
+    ((∃ id, (db.updateOpt t idx m o).2 = .created id) ∨ (∃ c d, (db.updateOpt t idx m o).2 = .overflow c d)) ↔
+      (wantsEvent t p m o.mode = true ∧ p.cls ≠ 0 ∧ db.evCfg.get t ≠ 0) :=
+  @Dnp3.Props.Db.update_creates_event_iff db t idx m o p hp
+
+/-- … and `last reported` (the detector's baseline `lastEvent`) becomes the new value exactly when an event
+    is wanted and is left alone otherwise; the static value follows `update_static`; nothing else of the
+    point, and no other point, changes -/
+theorem last_reported_moves_only_with_event (db : Db) (t : PtType) (idx : Nat) (m : Meas)
+    (o : UpdOpts) (p : Point) (hp : pmLookup (db.map t) idx = some p) :
+    ∃ p', pmLookup ((db.updateOpt t idx m o).1.map t) idx = some p' ∧
+      p'.lastEvent = (if wantsEvent t p m o.mode then m else p.lastEvent) ∧
+      p'.current = (if o.updateStatic then m else p.current) ∧
+      p'.selected = p.selected ∧ p'.cls = p.cls ∧ p'.svar = p.svar ∧ p'.evar = p.evar ∧ p'.deadband = p.deadband :=
+  @Dnp3.Props.Db.last_reported_moves_only_with_event db t idx m o p hp
 
 /-! ## Session level: where the session applies `clearWritten` and `reset` (D4, D19 repaired)
 
